@@ -1019,10 +1019,13 @@ func gen(r *hx.Rand, n int, tier string, emit func(string), st *hx.Stats) {
 			st.Inc("shc")
 			n := 101 + c.Intn(160)
 			script := fmt.Sprintf("#%d", n)
+			calls := n + 1 // underlying Next calls of a full drain: n items and the call that reports Done
 			if c.Chance(1, 4) {
-				script = fmt.Sprintf("#%d@%d!%d", n, c.Intn(n+1), 1+c.Intn(9))
+				e := c.Intn(n + 1)
+				script = fmt.Sprintf("#%d@%d!%d", n, e, 1+c.Intn(9))
+				calls = e + 1 // e items and the call that reports the error
 			}
-			emit(fmt.Sprintf("shc %s %d %d", script, 1+c.Intn(n), c.Intn(2)))
+			emit(fmt.Sprintf("shc %s %d %d", script, 1+c.Intn(calls), c.Intn(2)))
 			continue
 		}
 		switch k := c.Intn(20); {
